@@ -363,9 +363,15 @@ func c13FileFaults(run *rt.Run, r *rt.Rand) {
 		dir := filepath.Join(base, "d")
 		os.Mkdir(dir, 0o755)
 		ackp := filepath.Join(base, "ack")
-		run.Progress("C13 write fault %d inject=write:error=%s:when=%d %+v", i, errno, k, w)
+		// a transient fault (the k-th write of a thread fails once) or a persistent one (from the k-th on every
+		// write fails, so the sink's single retry fails as well and nothing after it may be acknowledged)
+		when := fmt.Sprint(k)
+		if cr.Intn(3) == 0 {
+			when += "+"
+		}
+		run.Progress("C13 write fault %d inject=write:error=%s:when=%s %+v", i, errno, when, w)
 		c := exec.Command("strace", append([]string{"-f", "-o", filepath.Join(base, "tr"), "-e", "trace=write",
-			"-e", fmt.Sprintf("inject=write:error=%s:when=%d", errno, k), child}, w.args(dir, ackp)...)...)
+			"-e", fmt.Sprintf("inject=write:error=%s:when=%s", errno, when), child}, w.args(dir, ackp)...)...)
 		c.Env = append(os.Environ(), "GOMAXPROCS=1")
 		c.Run()
 		a := readAck(ackp)
@@ -377,7 +383,7 @@ func c13FileFaults(run *rt.Run, r *rt.Rand) {
 		// all acknowledged present exactly once, whole; unacknowledged at most once
 		files, tear, size := readAll(dir, nil)
 		wit := func(extra string) any {
-			return map[string]any{"sink": "FileSink", "fault": fmt.Sprintf("write #%d of a thread fails once with %s", k, errno), "workload": fmt.Sprintf("%+v", w), "acked": a.ackOrd, "called": a.order, "detail": extra}
+			return map[string]any{"sink": "FileSink", "fault": fmt.Sprintf("write:error=%s:when=%s (k: the k-th write of a thread fails once; k+: every write from the k-th on)", errno, when), "workload": fmt.Sprintf("%+v", w), "acked": a.ackOrd, "called": a.order, "detail": extra}
 		}
 		cnt := map[string]int{}
 		for nme, rs := range files {
@@ -398,7 +404,7 @@ func c13FileFaults(run *rt.Run, r *rt.Rand) {
 		}
 		run.Add("write_fault_runs", 1)
 		run.Add("write_fault_unacked", len(a.order)-len(a.acked))
-		run.Eval(fmt.Sprintf("fault|%s|%d|%v|%d", errno, k, w.TSOnly, w.MaxBytes))
+		run.Eval(fmt.Sprintf("fault|%s|%s|%v|%d", errno, when, w.TSOnly, w.MaxBytes))
 		os.RemoveAll(base)
 	}
 }
